@@ -138,6 +138,7 @@ func init() {
 			// termination needs no meaning: a third of the grammars also recurse where a combinator
 			// tests for failure (P -> P+ b | a, a left-recursive first Choice alternative, ...)
 			o.Unstratified = rapid.IntRange(0, 2).Draw(t, "unstratified") == 0
+			o.Suppress = rapid.IntRange(0, 2).Draw(t, "suppress") == 0 // SuppressError around anything, recursive references included
 			g := GenGrammar(t, o)
 			wideRune := 0
 			if rapid.IntRange(0, 5).Draw(t, "wide") == 0 {
